@@ -163,12 +163,13 @@ theorem nwTable_facts (S : Matrix) (o : Int) (r q : List Nat) : NWFacts (nwTable
 /-! ### the traceback: some `case` always matches and the reported scores telescope -/
 
 /-- in an inner cell some `case` of the traceback switch matches the current value -/
-theorem exists_cand {T : Table} {S : Matrix} {o : Int} {r q : List Nat} (F : NWFacts T S o r q)
-    (i j : Nat) (hi : i < r.length) (hj : j < q.length) (k : Kind) (v : Int)
-    (h : (T.at (i + 1) (j + 1)).get k = some v) :
+theorem exists_cand_of_inner {T : Table} {S : Matrix} {o : Int} {r q : List Nat} (i j : Nat)
+    (hin : T.at (i + 1) (j + 1) =
+      nwCell S o (r.getD i 0) (T.at i j) (T.at i (j + 1)) (T.at (i + 1) j) (q.getD j 0))
+    (k : Kind) (v : Int) (h : (T.at (i + 1) (j + 1)).get k = some v) :
     ∃ cd ∈ cands false S o (r.getD i 0) (q.getD j 0),
       vadd ((predOf T (i + 1) (j + 1) cd.1).get cd.2.1) cd.2.2 = some v := by
-  rw [F.inner i j hi hj] at h
+  rw [hin] at h
   cases k with
   | m =>
     simp only [Cell.get, nwCell] at h
@@ -189,6 +190,13 @@ theorem exists_cand {T : Table} {S : Matrix} {o : Int} {r q : List Nat} (F : NWF
     rcases hsel with e | e <;> rw [e] at h
     · exact ⟨(.l, .m, o + S 0 (q.getD j 0)), by simp [cands], by simpa [predOf, Cell.get] using h⟩
     · exact ⟨(.l, .l, S 0 (q.getD j 0)), by simp [cands], by simpa [predOf, Cell.get] using h⟩
+
+theorem exists_cand {T : Table} {S : Matrix} {o : Int} {r q : List Nat} (F : NWFacts T S o r q)
+    (i j : Nat) (hi : i < r.length) (hj : j < q.length) (k : Kind) (v : Int)
+    (h : (T.at (i + 1) (j + 1)).get k = some v) :
+    ∃ cd ∈ cands false S o (r.getD i 0) (q.getD j 0),
+      vadd ((predOf T (i + 1) (j + 1) cd.1).get cd.2.1) cd.2.2 = some v :=
+  exists_cand_of_inner i j (F.inner i j hi hj) k v h
 
 theorem loop_good {T : Table} {S : Matrix} {o : Int} {r q : List Nat} (F : NWFacts T S o r q) (B : Int) :
     ∀ (fuel : Nat) (st : TB), Good T r.length q.length B st → st.i + st.j ≤ fuel →
